@@ -44,6 +44,21 @@ ALPHABET = [
     "mk = () => do {\n  fc = n => if n < 2 then 1 else n * fc(n - 1)\n  return fc\n}", "mk()(4)",
     "do {\n  g8 = mk()\n  return g8(4)\n}", "do {\n  g7 = f\n  return 0\n}",
 ]
+# scripted entries (several statements each): a function whose do-block re-binds a captured name from
+# its own captured value, called from contexts where that name means something else; an anonymous
+# function inside a bound list that a later do-block / call binds to a local named like one of its
+# captured names (the cell gets that name: found by a seeding agent on the unchanged tree, F36)
+SCRIPTED = [
+    "y0 = 10\nfy = x => do {\n  y0 = y0 + x\n  return y0\n}\nfy(1)",
+    "do {\n  y0 = 50\n  return fy(1)\n}\nfy(1)",
+    "(y0 => fy(1))(50)\nfy(1)",
+    "y0 = 10\ngl = [x => x + y0]\ngl[0](1)",
+    "do {\n  y0 = gl[0]\n  return 0\n}\ngl[0](1)",
+    "namer = fn9 => do {\n  y0 = fn9\n  return 0\n}\nnamer(gl[0])\ngl[0](1)",
+    "mk2 = y0 => (x => do {\n  y0 = y0 + x\n  return y0\n})\nfz = mk2(7)\nfz(1)",
+    "do {\n  y0 = 1000\n  return fz(1)\n}\nfz(1)",
+]
+ALPHABET = ALPHABET + SCRIPTED
 TAIL = "[#n, inputs.n]"
 
 
@@ -187,7 +202,10 @@ def main(argv):
     n_model = 700 if tier == "quick" else 40000
     idx = list(range(len(sess)))
     if len(idx) > n_model:
-        idx = sorted(rng.shuffle(idx)[:n_model])
+        # sessions made of scripted entries are always compared with the model
+        scripted = [i for i in idx if sum(1 for e in SCRIPTED if e in sess[i]) >= 2]
+        rest = [i for i in idx if i not in set(scripted)]
+        idx = sorted(scripted[:n_model // 2] + rng.shuffle(rest)[:n_model - min(len(scripted), n_model // 2)])
     sub = [sess[i] for i in idx]
     mism = []
     agree = 0
